@@ -134,6 +134,9 @@ type Block struct {
 	Sig  []byte
 	// SignCalls counts Sign invocations (observed by monitors).
 	OnSign func(b *Block, key dbft.PrivateKey)
+	// FailSign, when set and returning true, makes this Sign call fail (a transient signer error: the callback's
+	// contract allows an error, the library logs it and goes on without a commit).
+	FailSign func() bool
 }
 
 var _ dbft.Block[H] = (*Block)(nil)
@@ -165,6 +168,9 @@ func (b *Block) Signature() []byte { return b.Sig }
 func (b *Block) Sign(key dbft.PrivateKey) error {
 	if b.OnSign != nil {
 		b.OnSign(b, key)
+	}
+	if b.FailSign != nil && b.FailSign() {
+		return errors.New("vt: scripted transient signer failure")
 	}
 	k, ok := key.(Priv)
 	if !ok {
@@ -215,6 +221,8 @@ type PreBlock struct {
 	Txs       []dbft.Transaction[H]
 	D         []byte
 	OnSetData func(pb *PreBlock, key dbft.PrivateKey)
+	// FailSetData, when set and returning true, makes this SetData call fail (transient error, as for Block.FailSign).
+	FailSetData func() bool
 }
 
 var _ dbft.PreBlock[H] = (*PreBlock)(nil)
@@ -223,6 +231,9 @@ func (p *PreBlock) Data() []byte { return p.D }
 func (p *PreBlock) SetData(key dbft.PrivateKey) error {
 	if p.OnSetData != nil {
 		p.OnSetData(p, key)
+	}
+	if p.FailSetData != nil && p.FailSetData() {
+		return errors.New("vt: scripted transient failure of pre-commit data construction")
 	}
 	k, ok := key.(Priv)
 	if !ok {
